@@ -20,6 +20,10 @@ pub struct ParCase {
     /// procedurally from `sel` (sizes above any plausible internal threshold)
     #[serde(default)]
     pub big_n: Option<u16>,
+    /// long-lived-thread protocol (see `check_soak`): number of calls after which a counter of
+    /// that width would wrap (2^8, 2^16)
+    #[serde(default)]
+    pub soak: Option<u32>,
 }
 
 /// procedurally generated sparse graph: ring + 2 pseudo-random chords per node, non-dyadic weights
@@ -121,6 +125,94 @@ fn busy(us: u64) {
 }
 
 impl C07 {
+    /// The result of a call must not depend on what the executing thread did before. A worker of a
+    /// long-lived pool serves: one call on the 32-node graph, then a long run of calls on a 5-node
+    /// graph - long enough that a per-thread counter of `width` values (an epoch, a generation
+    /// mark, a slot index) comes round again - and then the calls on the 32-node graph whose
+    /// results are compared with those of a brand-new single-thread pool. The run is sized so that
+    /// the wrap-around point falls inside the last calls whatever a call counts (searches,
+    /// sources, calls).
+    fn check_soak(&self, case: &ParCase, width: usize) -> Outcome {
+        let mut out = Outcome::new();
+        let ng = case.g.norm();
+        let big = ng.build();
+        let weighted = ng.weighted;
+        let small_case = GraphCase { kind: case.g.kind, n: 5, perm: 0, shape: 1, edges: vec![], wmode: case.g.wmode, big_n: 0, big_seed: 0 };
+        let sng = small_case.norm();
+        let small = sng.build();
+        let src_big = ng.names[8 % ng.n.max(1)].clone();
+        let src_small = sng.names[0].clone();
+        let sources: Vec<String> = ng.names.iter().step_by(3).cloned().collect();
+        let node = ng.names[ng.n - 1].clone();
+        let fresh = || rayon::ThreadPoolBuilder::new().num_threads(1).build().expect("pool");
+        let reference = match fresh().install(|| run_all(&big, weighted, &sources, &node)) {
+            Ok(r) => r,
+            Err(p) => {
+                out.fail(format!("serial/panic/{}", panic_class(&p)), p);
+                return out;
+            }
+        };
+        // what one small call may advance a per-thread counter by: 1 (per call or per search of
+        // single_source) or 5 (per source of the centralities / all_pairs on 5 nodes)
+        type Small<'a> = (&'static str, usize, Box<dyn Fn() + Sync + 'a>);
+        let smalls: Vec<Small> = vec![
+            ("single_source", 1, Box::new(|| {
+                let _ = dijkstra::single_source(&small, weighted, src_small.clone(), None, None, false, true);
+            })),
+            ("single_source_distances_only", 1, Box::new(|| {
+                let _ = dijkstra::single_source(&small, weighted, src_small.clone(), None, None, false, false);
+            })),
+            ("betweenness_centrality", 5, Box::new(|| {
+                let _ = betweenness_centrality(&small, weighted, false);
+            })),
+            ("closeness_centrality", 5, Box::new(|| {
+                let _ = closeness_centrality(&small, weighted, false);
+            })),
+        ];
+        for (name, per_call, f) in &smalls {
+            // Only the *first* search on the 32-node graph after the long run can meet a stale
+            // value (every search on it refreshes all its entries), so the length of the run has to
+            // be exact: the counter has `width` or `width - 1` values and the 32-node search itself
+            // may or may not count. All run lengths from (width - 4) to (width + 1) steps are tried.
+            let lo = (width - 4) / per_call;
+            let hi = (width + 1 + per_call - 1) / per_call;
+            let forced = std::env::var("VERIF_SOAK_CALLS").ok().and_then(|v| v.parse::<usize>().ok());
+            for calls in lo..=hi {
+                let calls = forced.unwrap_or(calls);
+                let pool = fresh();
+                let got = pool.install(|| {
+                    // 40 small calls first: the counter is not at its initial value when the
+                    // 32-node graph is seen, and the wrap-around falls into the small calls
+                    for _ in 0..40 {
+                        f();
+                    }
+                    let _ = dijkstra::single_source(&big, weighted, src_big.clone(), None, None, false, true);
+                    let _ = betweenness_centrality(&big, weighted, false);
+                    let _ = closeness_centrality(&big, weighted, false);
+                    for _ in 0..calls {
+                        f();
+                    }
+                    run_all(&big, weighted, &sources, &node)
+                });
+                out.api_calls += calls as u64 + reference.len() as u64;
+                match got {
+                    Err(p) => out.fail(format!("after_long_run/panic/{}", panic_class(&p)), format!("after {} calls of {} on one thread: {}", calls, name, p)),
+                    Ok(got) => {
+                        for ((api, a), (_, b)) in reference.iter().zip(got.iter()) {
+                            if a != b {
+                                out.fail(format!("{}/depends_on_thread_history/after_about_{}_small_calls", api, width), format!("a worker thread that served {} calls of {} on a 5-node graph returns a different {} for the {}-node graph than a new thread", calls, name, api, ng.n));
+                                return out;
+                            }
+                        }
+                    }
+                }
+            }
+        }
+        out.class(format!("long_lived_thread_{}_calls", width));
+        out.nontrivial = true;
+        out
+    }
+
     /// large graphs: the centralities and distance-only all_pairs (the path-carrying variants would
     /// need gigabytes), pools of 2, 5 and 16 threads against the serial result
     fn check_big(&self, case: &ParCase, n: usize) -> Outcome {
@@ -172,7 +264,7 @@ impl Prop for C07 {
         "C07"
     }
     fn rule(&self) -> String {
-        "graphs of all 8 kinds with 21..=60 nodes (plus, one case in 13, a procedurally generated sparse graph with a log-uniform size in 61..=3000 on which the centralities (and, up to 1200 nodes, distance-only all_pairs) run in pools of 2, 5 and 16 threads) (random, tie-rich shapes, unweighted / tie-rich / non-dyadic weights so that the order of floating-point additions would matter). For every graph the five functions (all_pairs with and without paths, multi_source on a generated subset, get_all_shortest_paths_involving, all_pairs / multi_source with target, cutoff and first_only, betweenness raw/normalized, closeness with/without WF) run inside rayon pools of every size 1..=16 and of 24, 32 and 64 threads (wider than the graph) entered with install (size 1 takes the serial path and is the reference), each size repeated 2 (quick) / 6 (thorough) times, half of the repetitions with perturbing load (busy tasks spawned into the same pool; the harness itself runs 16 cases at a time on shared pools, which shifts work stealing further); plus 6 scoped threads calling the functions on one &Graph at the same time. Oracle: differential — identical key sets, f64::to_bits equality of every distance and centrality, identical path lists including their order. Non-trivial = n > 20 and the serial result contains a non-integer value or a pair with >= 2 paths; distinct = distinct serialised case.".into()
+        "graphs of all 8 kinds with 21..=60 nodes (plus, one case in 13, a procedurally generated sparse graph with a log-uniform size in 61..=3000 on which the centralities (and, up to 1200 nodes, distance-only all_pairs) run in pools of 2, 5 and 16 threads) (random, tie-rich shapes, unweighted / tie-rich / non-dyadic weights so that the order of floating-point additions would matter). For every graph the five functions (all_pairs with and without paths, multi_source on a generated subset, get_all_shortest_paths_involving, all_pairs / multi_source with target, cutoff and first_only, betweenness raw/normalized, closeness with/without WF) run inside rayon pools of every size 1..=16 and of 24, 32 and 64 threads (wider than the graph) entered with install (size 1 takes the serial path and is the reference), each size repeated 2 (quick) / 6 (thorough) times, half of the repetitions with perturbing load (busy tasks spawned into the same pool; the harness itself runs 16 cases at a time on shared pools, which shifts work stealing further); plus 6 scoped threads calling the functions on one &Graph at the same time. Exhaustive block (long-lived-thread protocol): a worker of a single-thread pool serves 40 calls on a 5-node graph, one call of each function on a 32-node graph, then a run of calls on a 5-node graph whose length is each of width - 4 .. width + 1 counter steps (width = 2^8, 2^16; per-call cost 1 or 5 steps), then all functions on the 32-node graph, whose results must equal those of a brand-new thread. Oracle: differential — identical key sets, f64::to_bits equality of every distance and centrality, identical path lists including their order. Non-trivial = n > 20 and the serial result contains a non-integer value or a pair with >= 2 paths; distinct = distinct serialised case.".into()
     }
     fn assumptions(&self) -> Vec<String> {
         vec![
@@ -187,16 +279,26 @@ impl Prop for C07 {
         fn me(n: usize) -> usize {
             n * 2
         }
-        let normal = (graph_strategy(&ALL_KINDS, 21, 60, me, &[0, 3, 4, 4, 5, 7], 4), any::<u64>()).prop_map(|(g, sel)| ParCase { g: tame_path_counts(g, 33), sel, big_n: None });
+        let normal = (graph_strategy(&ALL_KINDS, 21, 60, me, &[0, 3, 4, 4, 5, 7], 4), any::<u64>()).prop_map(|(g, sel)| ParCase { g: tame_path_counts(g, 33), sel, big_n: None, soak: None });
         // log-uniform sizes 61..=1200
         let big = (0u16..1000, any::<u64>(), 0u8..4).prop_map(|(r, sel, k)| {
             let n = (61.0 * (3000.0f64 / 61.0).powf(r as f64 / 999.0)).round() as u16;
-            ParCase { g: GraphCase { kind: k & 1, n: 0, perm: 0, shape: 0, edges: vec![], wmode: if k & 2 == 2 { 4 } else { 0 }, big_n: 0, big_seed: 0 }, sel, big_n: Some(n) }
+            ParCase { g: GraphCase { kind: k & 1, n: 0, perm: 0, shape: 0, edges: vec![], wmode: if k & 2 == 2 { 4 } else { 0 }, big_n: 0, big_seed: 0 }, sel, big_n: Some(n), soak: None }
         });
         prop_oneof![12 => normal, 1 => big].boxed()
     }
     fn random_cases(&self, tier: Tier) -> u32 {
         tier.pick(160, 2_400)
+    }
+    fn enumerate(&self, _tier: Tier) -> Vec<ParCase> {
+        // the long-lived-thread protocol for counters of 8 and 16 bits, on four kinds of graph
+        let mut v = vec![];
+        for width in [1u32 << 8, 1 << 16] {
+            for (kind, wmode) in [(0u8, 0u8), (1, 3), (0, 4), (1, 0)] {
+                v.push(ParCase { g: GraphCase { kind, n: 32, perm: 5, shape: 2, edges: vec![(0, 9, 3), (4, 20, 6), (31, 2, 9), (7, 7, 3), (12, 28, 1)], wmode, big_n: 0, big_seed: 0 }, sel: width as u64, big_n: None, soak: Some(width) });
+            }
+        }
+        v
     }
     fn extra_evidence(&self, _root: &Path) -> serde_json::Value {
         // informational static audit: which parallel adaptors does the library use?
@@ -224,6 +326,9 @@ impl Prop for C07 {
         serde_json::json!({ "static_audit_parallel_adaptors": hits })
     }
     fn check(&self, case: &ParCase) -> Outcome {
+        if let Some(width) = case.soak {
+            return self.check_soak(case, width.clamp(16, 1 << 17) as usize);
+        }
         let mut out = Outcome::new();
         crate::props::c08::poison_shortest_path_state(case.sel >> 3, 4);
         if let Some(bn) = case.big_n {
